@@ -5,7 +5,9 @@ Local Open Scope N_scope.
 (* The static round-trip discipline is sound, for ALL programs of the IR, all version triples, all
    header-string oracles: a program accepted by [chk] from the agreed set A, run in write mode on any
    state, then in read mode on any state that agrees on A and holds the produced bytes (followed by
-   anything), consumes exactly those bytes without fault and ends agreeing on the resulting set.
+   anything), consumes exactly those bytes without fault and ends agreeing on the resulting set
+   (tokens: scalar instances, container sizes, the bytes of raw arrays (SBytes: vertex and other plain-struct
+   data), locals; strings are transferred but not part of the agreement: a reader cuts them at a NUL).
    [rt_ok] quantifies over writers that finish with the model-only flag [warn] down: the flag goes up
    exactly when an inline string of 2049 bytes or more is written by a stream below 20.1.0.3, which
    NiStringRef::Read cannot take back (it keeps at most 2048 bytes). An object obtained by reading never
